@@ -366,8 +366,31 @@ def build_history(rng, scratch):
     return schemas
 
 
+def make_repo(rng, scratch, hidx):
+    """A small on-disk schema repository for the load_schema steps."""
+    from .c19 import gen_repo
+
+    types, root, _edges = gen_repo(rng)
+    d = os.path.join(scratch, "repo-%d" % hidx)
+    os.makedirs(d, exist_ok=True)
+    for full, js in types.items():
+        with open(os.path.join(d, full + ".avsc"), "w") as f:
+            json.dump(js, f)
+    return d, root, sorted(types)
+
+
 def run_history(sh, fa, zy, rng, scratch, hidx):
     schemas = build_history(rng, scratch)
+    repo_dir, repo_root, repo_types = make_repo(rng, scratch, hidx)
+    try:
+        return _run_history(sh, fa, zy, rng, scratch, hidx, schemas, repo_dir, repo_root, repo_types)
+    finally:
+        import shutil
+
+        shutil.rmtree(repo_dir, ignore_errors=True)
+
+
+def _run_history(sh, fa, zy, rng, scratch, hidx, schemas, repo_dir, repo_root, repo_types):
     objs = {}  # shared objects across calls: parsed schemas, named dictionaries, data
     for k, (js, node) in schemas.items():
         objs["raw_" + k] = copy.deepcopy(js)
@@ -403,7 +426,7 @@ def run_history(sh, fa, zy, rng, scratch, hidx):
                 bad = m[0]
         kind = rng.choice(["parse", "parse_shared", "swrite", "sread", "cwrite", "cread", "validate", "validate_many", "pcf",
                            "jwrite", "jread", "generate", "expand", "swrite_bad", "sread_trunc", "parse_unknown_ref", "cwrite_bad",
-                           "gen_roundtrip", "gen_roundtrip", "dangling_ref", "dangling_ref"])
+                           "gen_roundtrip", "gen_roundtrip", "dangling_ref", "dangling_ref", "load", "load_other"])
         name, args, data_args = None, None, []
         if kind == "parse":
             name, args = "parse", (sarg, None)
@@ -456,6 +479,11 @@ def run_history(sh, fa, zy, rng, scratch, hidx):
             name, args = "expand", (sarg,)
         elif kind == "gen_roundtrip":
             name, args = "gen_roundtrip", (sarg, rng.randrange(1000))
+        elif kind == "load":
+            name, args = "load", (os.path.join(repo_dir, repo_root + ".avsc"),)
+        elif kind == "load_other":
+            # a non-root type, or a file that does not exist
+            name, args = "load", (os.path.join(repo_dir, rng.choice(repo_types + ["no.such.Type"]) + ".avsc"),)
         elif kind == "dangling_ref":
             # a schema that refers to a type defined only by ANOTHER schema of this history
             from ..gen.evolve import definitions
